@@ -164,6 +164,12 @@ def aside_cnt(v):
     raise Refuse(f"aside list {v!r}")
 
 
+def own_future_not_done(st, c, f):
+    """the future stored in f's entry is neither completed nor failed (it belongs to the task that is running)"""
+    fid = sel(A(st, c)['fid'], f)
+    return VBool(z3.And(z3.Not(z3.Select(st.ghost['done_ids'].t, fid)), z3.Not(z3.Select(st.ghost['failed_ids'].t, fid))))
+
+
 def uffm_params(src):
     """parameters of update_file_futures_and_memory as the code has them (`loaded` exists after fix for the stale-load defect)"""
     fn = src.find(F + 'update_file_futures_and_memory')
@@ -322,7 +328,9 @@ def build(reg, src):
                                             z3.Or(sel(A(s.st, s.self)['writing'], s.file_name.t), sel(A(s.st, s.self)['cnt'], s.file_name.t) == 0))),
                      lambda s: And(s.memory_usage >= 0, s.memory_usage <= VInt(A(s.st, s.self)['max'])),
                      # single client: a load task never finds a pending WRITE of its file (the client that would submit it is waiting for the load)
-                     lambda s: Implies(s.loaded, VBool(z3.Not(sel(A(s.st, s.self)['writing'], s.file_name.t)))) if s.has('loaded') else VBool(True)],
+                     lambda s: Implies(s.loaded, VBool(z3.Not(sel(A(s.st, s.self)['writing'], s.file_name.t)))) if s.has('loaded') else VBool(True),
+                     # single client: the entry holds the future of the very task that is completing - it is not done yet
+                     lambda s: own_future_not_done(s.st, s.self, s.file_name.t)],
            modifies=lambda eng, st, s: havoc_table(st, s.self),
            ensures=uffm_posts())
 
@@ -346,8 +354,9 @@ def build(reg, src):
         def pre(s):
             a = A(s.st, s.self)
             f = s.file_name.t
-            return VBool(z3.And(sel(a['dom'], f), z3.Not(sel(a['counted'], f)), sel(a['writing'], f) == writing,
-                                z3.Or(sel(a['writing'], f), sel(a['cnt'], f) == 0)))
+            return And(VBool(z3.And(sel(a['dom'], f), z3.Not(sel(a['counted'], f)), sel(a['writing'], f) == writing,
+                                    z3.Or(sel(a['writing'], f), sel(a['cnt'], f) == 0))),
+                       own_future_not_done(s.st, s.self, f))
         return pre
 
     def wf_mod(eng, st, s):
